@@ -26,6 +26,10 @@ SHAPES = [
     (3, (('AND', (0, 1)), ('AND', (3, 2)), ('AND', (0, 2)), ('AND', (5, 1)), ('OR', (4, 6))), (7,)),  # overlapping cones
     (2, (('NOT', (0,)), ('NOT', (2,)), ('AND', (3, 1)), ('OR', (4, 0))), (5,)),
     (3, (('GT', (0, 1)), ('LT', (0, 1)), ('OR', (3, 4)), ('GEQ', (5, 2)), ('LEQ', (5, 2)), ('NAND', (6, 7))), (8, 5)),
+    # improvable cone with two non-trivial outputs (t and v; u is internal), both with fan-out
+    (3, (('AND', (0, 1)), ('XOR', (0, 1)), ('OR', (3, 4)), ('XOR', (3, 2)), ('AND', (5, 2))), (6, 7)),
+    (3, (('XOR', (0, 1)), ('AND', (0, 1)), ('OR', (4, 3)), ('AND', (5, 2)), ('XOR', (4, 2))), (6, 7)),
+    (2, (('NAND', (0, 1)), ('OR', (0, 1)), ('AND', (2, 3)), ('NOR', (0, 1))), (4, 5, 3)),
 ]
 
 
@@ -82,8 +86,10 @@ class FakePool:
 DEFAULT_ENV = {'solver': 'default', 'set': 'asc', 'cuts': 'default', 'timeout_at': None}
 
 
-def env_menu(n_solver_calls, use_pool):
+def env_menu(n_solver_calls, use_pool, only_set=False):
     """Single deviations from the default environment."""
+    if only_set:
+        return [{'set': 'desc'}, {'set': 'rot1'}, {'set': 'rot2'}]
     devs = [{'solver': 'phase'}, {'solver': 'rev'}, {'set': 'desc'}, {'set': 'rot1'}, {'set': 'rot2'},
             {'cuts': 'reverse_cuts'}, {'cuts': 'reverse_leaves'}, {'cuts': 'keep_dominated'}, {'cuts': 'trivial_first'}]
     if use_pool:
@@ -187,7 +193,7 @@ def judge(acc, case, feats, n, gates, outs, net, ref, has_equiv, kind, res):
     acc.outcome('result', (g0, g1))
 
 
-def check_circuit(acc, n, gates, outs, basis, params, max_dev, only_env=None):
+def check_circuit(acc, n, gates, outs, basis, params, max_dev, only_env=None, only_set=False):
     net = space.spec_net(n, gates, outs)
     ref = net.tables()
     tabs = list(ref.values())
@@ -209,9 +215,9 @@ def check_circuit(acc, n, gates, outs, basis, params, max_dev, only_env=None):
         return
     info = one({})
     if max_dev >= 1:
-        devs = env_menu(info['solver_calls'], use_pool)
-        # admissible single-cut drops (only the first few nodes)
-        if info['cuts']:
+        devs = env_menu(info['solver_calls'], use_pool, only_set)
+        # admissible single-cut drops
+        if info['cuts'] and not only_set:
             for node, cs_ in list(info['cuts'].items()):
                 for i in range(len(cs_) - 1):
                     devs.append({'cuts': f'drop:{node}:{i}'})
@@ -260,7 +266,7 @@ def plan(tier):
         t.append({'kind': 'shape', 'i': i, 'dev': 1 if tier == 'quick' else 2})
     fams = [(2, 1, 'A04', 0, 1), (2, 2, 'A04', 1, 1), (3, 2, 'A04S', 1, 0)]
     if tier == 'thorough':
-        fams = [(2, 1, 'A04', 0, 2), (2, 2, 'A04', 1, 1), (3, 2, 'A04', 1, 1), (2, 3, 'A04S', 2, 0), (3, 3, 'A04S', 2, 0)]
+        fams = [(2, 1, 'A04', 0, 2), (2, 2, 'A04', 1, 1), (3, 2, 'A04', 1, 1), (2, 3, 'A04S', 2, -1), (3, 3, 'A04S', 2, 0)]
     for n, k, a, split, dev in fams:
         for tk in space.tasks(n, k, ALPHAS[a], split):
             tk.update(kind='fam', alpha=a, dev=dev)
@@ -278,8 +284,8 @@ def describe(tier):
         'deviations on the designed shapes. Oracle: reference truth table, interface, non-trivial gate count; exceptions other than '
         'FailedValidationError tolerated only when two gates of the argument are functionally equivalent. distinct = distinct '
         '(gates before, gates after).',
-        'bounds': {'quick': '10 designed shapes (4 bases x 8 parameter sets, 1 deviation for XAIG with direct/pool/validation; the two largest shapes with max_subcircuit_size<=3); F(2,1,A04), F(2,2,A04) 1 deviation; F(3,2,A04S) default environment',
-                   'thorough': 'designed shapes 2 deviations; F(2,1) 2 deviations; F(2,2,A04), F(3,2,A04) 1 deviation; F(2,3,A04S), F(3,3,A04S) default environment'}[tier],
+        'bounds': {'quick': '13 designed shapes (4 bases x 8 parameter sets, 1 deviation for XAIG with direct/pool/validation; the two largest shapes with max_subcircuit_size<=3); F(2,1,A04), F(2,2,A04) 1 deviation; F(3,2,A04S) default environment',
+                   'thorough': 'designed shapes 2 deviations; F(2,1) 2 deviations; F(2,2,A04), F(3,2,A04) 1 deviation; F(2,3,A04S) default environment + set-order deviations, F(3,3,A04S) default environment'}[tier],
         'exhaustive': True,
         'assumptions': ['vsat is sound and complete; the cut shim enumerates admissible families (vmc/shims); vmc.refmodel evaluator'],
     }
@@ -315,7 +321,11 @@ def run_task(task, acc):
     for gates in space.enum_gates(n, k, alpha, space.prefix_from_task(task)):
         for outs in _policies(n, k, gates):
             for b, pname in (('XAIG', 'direct'), ('AIG', 'valid'), ('FULL', 'pool')):
-                check_circuit(acc, n, gates, outs, basis_arg(b), dict(PARAM_SETS[pname]), task['dev'] if b == 'XAIG' else 0)
+                if task['dev'] == -1:
+                    # default environment + the set-iteration-order deviations only
+                    check_circuit(acc, n, gates, outs, basis_arg(b), dict(PARAM_SETS[pname]), 1 if b == 'XAIG' else 0, only_set=True)
+                else:
+                    check_circuit(acc, n, gates, outs, basis_arg(b), dict(PARAM_SETS[pname]), task['dev'] if b == 'XAIG' else 0)
     acc.sample({**space.spec_json(n, gates, outs), 'basis': 'XAIG', 'params': PARAM_SETS['direct'], 'env': {}})
 
 
